@@ -22,7 +22,7 @@ def ip_family(s):
 
 
 class Pipe:
-    __slots__ = ('buf', 'fin', 'rst', 'last_arrival', 'on_arrival', 'total', 'closed_reader', 'inflight')
+    __slots__ = ('buf', 'fin', 'rst', 'last_arrival', 'on_arrival', 'total', 'closed_reader', 'inflight', 'end', 'rst_answered')
 
     def __init__(self):
         self.buf = bytearray()
@@ -33,6 +33,8 @@ class Pipe:
         self.total = 0
         self.closed_reader = False  # reader has closed: arriving data is discarded
         self.inflight = []
+        self.end = None             # the End that reads from this pipe
+        self.rst_answered = False
 
 
 class End:
@@ -42,6 +44,7 @@ class End:
     def __init__(self, conn, name):
         self.conn = conn
         self.rx = Pipe()
+        self.rx.end = self
         self.other = None
         self.name = name
         self.sent_fin = False
@@ -94,8 +97,14 @@ class World:
         # bytes one send() call takes at most (a full send buffer makes send() on a socket with a timeout return a short count); 0 = unlimited
         self.sndbuf = int(plan.get('knobs', {}).get('sndbuf', 0) or 0)
         # data queued before an RST arrived: still readable first (Linux) or discarded with the reset (BSD-like); seeded per plan unless given
+        # two coherent socket-semantics profiles, seeded per plan unless the knobs say otherwise.  'linux': data for a socket that is
+        # already closed is answered with a reset, and data queued before a reset arrived can still be read first.  'quiet': such data is
+        # dropped silently and a reset discards what was queued (the model this simulator started with).
+        linux = subrng(plan.get('seed', 0), 'socket-semantics').random() < 0.5
+        ra = plan.get('knobs', {}).get('rst_after_close')
+        self.rst_after_close = bool(ra) if ra is not None else linux
         rk = plan.get('knobs', {}).get('rst_keeps_data')
-        self.rst_keeps_data = bool(rk) if rk is not None else subrng(plan.get('seed', 0), 'rst-keeps-data').random() < 0.5
+        self.rst_keeps_data = bool(rk) if rk is not None else linux
         self.net_time_us = 0     # virtual time spent by data in flight (latency, gaps, injected delays)
         self.executors = []
         self.exec_future_counter = 0
@@ -212,6 +221,11 @@ class World:
             if not self.rst_keeps_data:
                 del pipe.buf[:]
         elif pipe.closed_reader or pipe.rst:
+            if pipe.closed_reader and not pipe.rst and self.rst_after_close and not pipe.rst_answered and pipe.end is not None:
+                # data for a socket that is already closed is answered with a reset (once), as a real stack does
+                pipe.rst_answered = True
+                self.fired('rst_after_close')
+                self.send_rst(pipe.end)
             return
         else:
             pipe.buf += item
